@@ -16,7 +16,7 @@ HOOK_COMMITS = []
 
 def lemmas():
     out = []
-    for mod in ("reg_c12",):
+    for mod in ("reg_c12", "reg_steps"):
         m = __import__(mod)
         out += m.lemmas()
         PROPS.update(getattr(m, "PROPS", {}))
